@@ -83,7 +83,17 @@ func witnessCases() []*hcase {
 		Seeds: []seed{{Name: "whatap-boot-abcdefgh.log", Content: vh.Hex([]byte("x"))}, {Name: "whatap-boot-20240101.log", Content: vh.Hex([]byte("x"))},
 			{Name: "whatap-boot-20240309.log", Content: vh.Hex([]byte("x"))}, {Name: "whatapx-boot-20240101.log", Content: vh.Hex([]byte("x"))}},
 		Ops: []hop{{Kind: "proc", T: t0 + 60001}}}
-	return []*hcase{rd("../secret.txt", -1, 100), rd("a.log", 0, -5), rd("a.log", 7, 4), ret}
+	// server-sync delta: adjusted time crosses midnight while system time is still on the old day
+	tn := baseTime + 8835*dayMs + 84600000 // 2024-03-10 23:30 adjusted, 22:30 system
+	msg := func(t int64, s string) hop {
+		return hop{Kind: "log", T: t, Meth: "errorf", Msg: vh.Hex([]byte(s))}
+	}
+	dl := &hcase{Gen: "witness", Clock: "delta", Deltas: []int64{3600000}, T0: tn, Level: 2, Oname: "boot", LogID: "whatap",
+		Seeds: []seed{{Name: "whatap-boot-20240302.log", Content: vh.Hex([]byte("x"))}, {Name: "whatap-boot-20240303.log", Content: vh.Hex([]byte("x"))}},
+		Ops:   []hop{msg(tn, "before midnight #900001#"), msg(tn+2400000, "after midnight, before the cycle #900002#"), {Kind: "proc", T: tn + 2400000}, msg(tn+2400001, "after the cycle #900003#")}}
+	sv := &hcase{Gen: "witness", Clock: "server", Deltas: []int64{-2 * dayMs}, T0: tn, Level: 2, Oname: "boot", LogID: "whatap",
+		Seeds: dl.Seeds, Ops: dl.Ops}
+	return []*hcase{rd("../secret.txt", -1, 100), rd("a.log", 0, -5), rd("a.log", 7, 4), ret, dl, sv}
 }
 
 // genCases builds the histories of one chunk.
@@ -110,6 +120,10 @@ func genCases(rng *vh.Rng, seq *int, withWitness bool) []*hcase {
 	for i := 0; i < 2; i++ {
 		cases = append(cases, genEvict(rng, seq))
 	}
+	for i := 0; i < 5; i++ {
+		cases = append(cases, genManyIds(rng, seq, 400+rng.Intn(300)))
+	}
+	cases = append(cases, genManyIds(rng, seq, 1010+rng.Intn(150)))
 	return cases
 }
 
@@ -132,6 +146,13 @@ func runCases(env *vh.Env, rep *vh.Report, cases []*hcase) {
 		res := &caseResult{c, obsAll[i], compare(c, obsAll[i], ans[offs[i]:offs[i+1]]), direct(c, obsAll[i])}
 		rep.Case(canon(c), nontrivial(c))
 		rep.Count("gen:" + c.Gen)
+		if realClock {
+			rep.Count("clock:real")
+		} else if c.Clock == "" {
+			rep.Count("clock:sync")
+		} else {
+			rep.Count("clock:" + c.Clock)
+		}
 		for k, o := range c.Ops {
 			rep.Count("op:" + o.Kind)
 			if o.Kind == "log" {
@@ -174,7 +195,7 @@ func runCases(env *vh.Env, rep *vh.Report, cases []*hcase) {
 
 // histChildren runs chunks of histories in parallel child processes (each process has its own
 // virtual clock) and merges their reports.
-func histChildren(env *vh.Env, rep *vh.Report, chunks int) {
+func histChildren(env *vh.Env, rep *vh.Report, kind string, chunks int) {
 	self, err := os.Executable()
 	if err != nil {
 		vh.Die("executable: %v", err)
@@ -191,9 +212,9 @@ func histChildren(env *vh.Env, rep *vh.Report, chunks int) {
 		go func(k int) {
 			sem <- struct{}{}
 			defer func() { <-sem }()
-			out := fmt.Sprintf("c17-chunk-%d-%d.json", os.Getpid(), k)
+			out := fmt.Sprintf("c17-chunk-%s-%d-%d.json", kind, os.Getpid(), k)
 			cmd := exec.Command(self, "-driver", env.Driver, "-tier", env.Tier, "-seed", fmt.Sprint(env.Seed), "-out", out)
-			cmd.Env = append(os.Environ(), "C17_CHILD=hist", fmt.Sprintf("C17_CHUNK=%d", k), "GORACE=halt_on_error=0 exitcode=0 log_path=/dev/null")
+			cmd.Env = append(os.Environ(), "C17_CHILD="+kind, fmt.Sprintf("C17_CHUNK=%d", k), "GORACE=halt_on_error=0 exitcode=0 log_path=/dev/null")
 			var se bytes.Buffer
 			cmd.Stderr = &se
 			e := cmd.Run()
@@ -237,6 +258,28 @@ func main() {
 	}
 	rep.Rule = "a case is a history (seeded logs directory; logger created at a virtual time; 8-60 operations: log calls over the 12 entry points, clock steps aimed at the rate-limit, one-minute and midnight boundaries, background cycles, retention passes, SetLevel/ApplyConfig, Read over names x end positions x lengths); distinct = distinct canonical history; non-trivial = at least two operations; the concurrent stage counts one case per rotation under load"
 	seq := 0
+	if os.Getenv("C17_CHILD") == "real" {
+		realClock = true
+		rng := vh.NewRng(env.Seed*7777 + 5)
+		seq = 500000000
+		var cases []*hcase
+		n := 40
+		if env.Thorough {
+			n = 300
+		}
+		for i := 0; i < n; i++ {
+			cases = append(cases, genReal(rng, &seq))
+		}
+		runCases(env, rep, cases)
+		var hs []string
+		for _, c := range cases {
+			h := sha1.Sum([]byte(canon(c)))
+			hs = append(hs, hex.EncodeToString(h[:8]))
+		}
+		rep.Extra["canons"] = hs
+		rep.Write(env.Out)
+		return
+	}
 	if os.Getenv("C17_CHILD") == "hist" {
 		k, _ := strconv.Atoi(os.Getenv("C17_CHUNK"))
 		rng := vh.NewRng(env.Seed*1000003 + uint64(k)*7919 + 17)
@@ -281,8 +324,9 @@ func main() {
 		runCases(env, rep, cases)
 	} else {
 		runCases(env, rep, genCases(rng, &seq, true))
+		histChildren(env, rep, "real", 1)
 		if env.Thorough {
-			histChildren(env, rep, 10)
+			histChildren(env, rep, "hist", 10)
 		}
 	}
 	if runConc {
